@@ -102,13 +102,19 @@ def r7_1(ctx):
 
 
 ACCEPTED_UNKNOWN = {
-    ("server.IMAPSubprocessInterface.msgs_to_client", "msg"): "relay of readuntil(b'\\r\\n') output from the user process",
-    ("pop3_server.POP3SubprocessInterface.msgs_to_client", "msg"): "relay of readuntil(b'\\r\\n') output from the user process",
+    "server.IMAPSubprocessInterface.msgs_to_client": "relay: forwards, unmodified, the bytes read from the user process (whose own pushes are checked by this rule)",
+    "pop3_server.POP3SubprocessInterface.msgs_to_client": "relay: forwards, unmodified, the bytes read from the user process (whose own pushes are checked by this rule)",
 }
 
 
 def _accepted_unknown(fi, a):
-    return ACCEPTED_UNKNOWN.get((fi.key, norm(a)))
+    why = ACCEPTED_UNKNOWN.get(fi.key)
+    if why is None or not isinstance(a, ast.Name):
+        return None
+    defs = [s for s in body_walk(fi.node) if isinstance(s, ast.Assign) and any(isinstance(t, ast.Name) and t.id == a.id for t in s.targets)]
+    if defs and all(isinstance(strip_await(s.value), ast.Call) and call_name(strip_await(s.value)) in ("read", "readuntil", "readexactly", "readline") and "reader" in norm(call_recv(strip_await(s.value))) for s in defs):
+        return why
+    return None
 
 
 def _stmt(node, fi):
@@ -196,8 +202,8 @@ def _safe_by_construction(p, fi, h, depth=0) -> str | None:
         # nested f-string of safe pieces
         ok = all(_safe_by_construction(p, fi, x, depth + 1) for x in fstring_parts(h) if not isinstance(x, str))
         return "formatted safe pieces" if ok else None
-    if isinstance(h, ast.Attribute) and norm(h) in ("int_date.day",):
-        return "number"
+    if isinstance(h, ast.Attribute) and h.attr in ("day", "month", "year", "hour", "minute", "second"):
+        return "number (datetime field)"
     return None
 
 
@@ -298,16 +304,16 @@ def r7_3(ctx):
                     break
     ctx.floor("R7.3", n, 1, "literal prefixes")
     # the partial slice and CRLF termination happen before the length is taken (order of statements in FetchAtt.body)
+    from .common import pm_of
+
     fb = p.func("fetch.FetchAtt.body")
-    order = []
-    for s in fb.node.body:
-        t = norm(s, 400)
-        if isinstance(s, ast.Assign) and "endswith(b'\\r\\n')" in t:
-            order.append("terminate")
-        if isinstance(s, ast.If) and "self.partial" in norm(s.test):
-            order.append("slice")
-        if isinstance(s, ast.Return) and "len(msg_text)" in t:
-            order.append("len")
+    pfb = pm_of(p, fb)
+    steps = [
+        ("terminate", pfb.find("msg_text = msg_text if msg_text.endswith(b'\\r\\n') else msg_text + b'\\r\\n'")),
+        ("slice", pfb.find("if self.partial:\n    ...\n    msg_text = msg_text[...]")),
+        ("len", pfb.find("return f'{{{len(msg_text)}}}\\r\\n'.encode('latin-1') + msg_text")),
+    ]
+    order = [nm for nm, n_ in sorted(((nm, n_) for nm, n_ in steps if n_ is not None), key=lambda x: x[1].lineno)]
     if order == ["terminate", "slice", "len"]:
         ctx.ok("R7.3", where(fb), "order: CRLF-terminate -> partial slice -> take len() and emit")
     else:
@@ -464,4 +470,4 @@ def run(ctx):
     r7_4(ctx)
     r7_5(ctx)
     for k, v in ACCEPTED_UNKNOWN.items():
-        ctx.trust(f"frozen relay entry: {k[0]} push({k[1]}) - {v}")
+        ctx.trust(f"frozen relay entry: {k} - {v}")
